@@ -6,7 +6,7 @@
 // src/element.rs: eval_rel_position (placement fragment), place_at, expand_compound_size,
 // expand_compound_pos, resolve_size_delta, resolve_position. Real-number model.
 //@assume fstr/strp/strp_length/split_compound_attr are deterministic functions of their string (uninterpreted); BoundingBox::locspec meets loc_point and Length::adjust meets adjust_len (both proved in U-geom); eval_rel_attributes rewrites only the VALUES of attributes already present (iterates a clone of the attribute map and inserts under the same key); eval_text_anchor only adds a default text-loc
-//@assume R-abstract in resolve_size_delta: the `(w, h)` basis (Option combinators with closures over strp) is size_basis(); `strp_length(..).map(|dw| w.map(|x| dw.adjust(x)))` is adjusted() with the meaning written in adjust_spec
+//@assume R-abstract in resolve_size_delta: `self.get_attr(a).and_then(|v| strp(&v).ok()).map(|v| v * scale)` is scaled_num(); `strp_length(..).map(|dw| w.map(|x| dw.adjust(x)))` is adjusted() with the meaning written in adjust_spec
 //@assume pos_attr_helper / eval_size_attr: `split_once(' ')`, `strip_prefix(SEP)`, `str::parse`, extract_dx_dy and the reference lookup (split_relspec + get_element_bbox) are deterministic partial functions of their string (uninterpreted); BoundingBox::scalarspec meets scalar_of (proved in U-geom)
 //@assume R-abstract in resolve_position: points/d relspec expansion and the `use` target-size adjustment are opaque helpers that leave the attribute map / Position otherwise unconstrained
 use vstd::prelude::*;
@@ -86,6 +86,25 @@ pub open spec fn basis_of(name: Seq<char>, m: M) -> (Option<real>, Option<real>)
     } else if name == "ellipse"@ { (twice(num(m, "rx"@)), twice(num(m, "ry"@))) }
     else { (num(m, "width"@), num(m, "height"@)) }
 }
+/// the width / height `Position::from` reads off an element (U-posattrs: C11.harvest.length): a round shape given by a
+/// radius is measured by it, anything else by width / height
+pub open spec fn is_round(n: Seq<char>) -> bool { n == "circle"@ || n == "ellipse"@ }
+pub open spec fn w_slot(n: Seq<char>, m: M) -> Seq<char> { if is_round(n) && m.dom().contains("rx"@) { "rx"@ } else if is_round(n) && m.dom().contains("r"@) { "r"@ } else { "width"@ } }
+pub open spec fn h_slot(n: Seq<char>, m: M) -> Seq<char> { if is_round(n) && m.dom().contains("ry"@) { "ry"@ } else if is_round(n) && m.dom().contains("r"@) { "r"@ } else { "height"@ } }
+pub open spec fn size_w(n: Seq<char>, m: M) -> Option<real> { if w_slot(n, m) == "width"@ { num(m, "width"@) } else { twice(num(m, w_slot(n, m))) } }
+pub open spec fn size_h(n: Seq<char>, m: M) -> Option<real> { if h_slot(n, m) == "height"@ { num(m, "height"@) } else { twice(num(m, h_slot(n, m))) } }
+/// the element's width / height attribute (the one Position::from reads) says x
+pub open spec fn sized_w(n: Seq<char>, m: M, x: real) -> bool {
+    if is_round(n) && (m.dom().contains("rx"@) || m.dom().contains("r"@)) { written(m, w_slot(n, m), x / 2real) } else { written(m, "width"@, x) }
+}
+pub open spec fn sized_h(n: Seq<char>, m: M, x: real) -> bool {
+    if is_round(n) && (m.dom().contains("ry"@) || m.dom().contains("r"@)) { written(m, h_slot(n, m), x / 2real) } else { written(m, "height"@, x) }
+}
+/// R-abstract (resolve_size_delta): `self.get_attr(a).and_then(|v| strp(&v).ok()).map(|v| v * scale)`
+#[verifier::external_body]
+pub fn scaled_num(e: &SvgElement, attr: &str, scale: R32) -> (r: Option<R32>)
+    ensures (r is Some) == (num(e.attrs@, attr@) is Some), r is Some ==> val(r->Some_0) == num(e.attrs@, attr@)->Some_0 * val(scale)
+{ unimplemented!() }
 pub open spec fn first_wins(o: M, k: Seq<char>, v: Seq<char>) -> Seq<char> { if o.dom().contains(k) { o[k] } else { v } }
 
 #[verifier::external_body]
@@ -393,21 +412,22 @@ impl SvgElement {
 //@end
 
 //@item src/element.rs :: impl SvgElement :: fn resolve_size_delta
-//@ cut[R-abstract] <<<        let (w, h) = match self.name.as_str() {>>> .. <<<\n        };>>> => <<<        let (w, h) = size_basis(self);>>>
+//@ strlit "circle" "ellipse" "rx" "ry" "r" "width" "height" "dw" "dh"
+//@ replace[R-matches] <<<matches!(self.name.as_str(), "circle" | "ellipse")>>> => <<<(self.name.as_str() == "circle" || self.name.as_str() == "ellipse")>>>
+//@ replace[R-abstract] <<<let w = self\n            .get_attr(w_attr)\n            .and_then(|w| strp(&w).ok())\n            .map(|w| w * w_scale);>>> => <<<let w = scaled_num(self, w_attr, w_scale);>>>
+//@ replace[R-abstract] <<<let h = self\n            .get_attr(h_attr)\n            .and_then(|h| strp(&h).ok())\n            .map(|h| h * h_scale);>>> => <<<let h = scaled_num(self, h_attr, h_scale);>>>
 //@ replace[R-abstract] <<<strp_length(&dw).map(|dw| w.map(|x| dw.adjust(x)))>>> => <<<adjusted(&dw, w)>>>
 //@ replace[R-abstract] <<<strp_length(&dh).map(|dh| h.map(|x| dh.adjust(x)))>>> => <<<adjusted(&dh, h)>>>
 //@ ensures
 //@ - final(self).name == old(self).name
-//@ - lacks(final(self).attrs@, seq!["dw"@, "dh"@])     @@C09.delta.consumed
 //@ - !final(self).attrs@.dom().contains("dw"@) && !final(self).attrs@.dom().contains("dh"@)     @@C09.delta.consumed
-//@ - old(self).attrs@.dom().contains("dw"@) && adjust_spec(old(self).attrs@["dw"@], basis_of(old(self).name@, old(self).attrs@).0) is Some
-//@       ==> written(final(self).attrs@, "width"@, adjust_spec(old(self).attrs@["dw"@], basis_of(old(self).name@, old(self).attrs@).0)->Some_0)     @@C09.delta.dw
-//@ - old(self).attrs@.dom().contains("dh"@) && adjust_spec(old(self).attrs@["dh"@], basis_of(old(self).name@, old(self).attrs@).1) is Some
-//@       ==> written(final(self).attrs@, "height"@, adjust_spec(old(self).attrs@["dh"@], basis_of(old(self).name@, old(self).attrs@).1)->Some_0)     @@C09.delta.dh
-//@ - forall|k: Seq<char>| k != "dw"@ && k != "dh"@ && k != "width"@ && k != "height"@ ==> map_get(final(self).attrs@, k) == map_get(old(self).attrs@, k)     @@C09.delta.frame
+//@ - old(self).attrs@.dom().contains("dw"@) && !old(self).attrs@.dom().contains("dh"@) && adjust_spec(old(self).attrs@["dw"@], size_w(old(self).name@, old(self).attrs@)) is Some
+//@       ==> sized_w(final(self).name@, final(self).attrs@, adjust_spec(old(self).attrs@["dw"@], size_w(old(self).name@, old(self).attrs@))->Some_0)     @@C09.delta.dw
+//@ - old(self).attrs@.dom().contains("dh"@) && adjust_spec(old(self).attrs@["dh"@], size_h(old(self).name@, old(self).attrs@)) is Some
+//@       ==> sized_h(final(self).name@, final(self).attrs@, adjust_spec(old(self).attrs@["dh"@], size_h(old(self).name@, old(self).attrs@))->Some_0)     @@C09.delta.dh
+//@ - forall|k: Seq<char>| k != "dw"@ && k != "dh"@ && k != "width"@ && k != "height"@ && k != "r"@ && k != "rx"@ && k != "ry"@ ==> map_get(final(self).attrs@, k) == map_get(old(self).attrs@, k)     @@C09.delta.frame
 //@ - final(self).attrs@.dom().contains("wh"@) == old(self).attrs@.dom().contains("wh"@) && final(self).attrs@.dom().contains("dwh"@) == old(self).attrs@.dom().contains("dwh"@)     @@C09.delta.frame
-//@ - !old(self).attrs@.dom().contains("dw"@) ==> map_get(final(self).attrs@, "width"@) == map_get(old(self).attrs@, "width"@)
-//@ - !old(self).attrs@.dom().contains("dh"@) ==> map_get(final(self).attrs@, "height"@) == map_get(old(self).attrs@, "height"@)
+//@ - !old(self).attrs@.dom().contains("dw"@) && !old(self).attrs@.dom().contains("dh"@) ==> final(self).attrs@ == old(self).attrs@     @@C09.delta.frame
 //@end
 
 //@item src/element.rs :: impl SvgElement :: fn expand_compound_pos
